@@ -898,6 +898,11 @@ impl Gen<'_> {
             // ones whose label can disagree with what was applied
             op.which = self.r.pick(&[20u64, 21, 22, 24, 25, 26]);
         }
+        if self.prof == Profile::Constructors && self.r.pct(35) {
+            // by-value conversions between the float types: the paths on which an image gives up
+            // its buffer (`into_data`) and another one takes it over
+            op.which = self.r.pick(&[14u64, 15, 18, 19, 20, 23, 24, 27, 27, 19]);
+        }
         let cs = CONVS[op.which as usize];
         op.src = self.src_of_class(cs.src);
         op.slot = self.slot_of_class(cs.dst);
@@ -932,7 +937,7 @@ impl Gen<'_> {
             match self.prof {
             Profile::Safety => [22, 12, 46, 4, 3, 3, 2, 4, 3, 1],
             Profile::Independence => [14, 8, 52, 6, 5, 3, 2, 6, 3, 1],
-            Profile::Constructors => [26, 22, 16, 10, 7, 4, 6, 7, 1, 1],
+            Profile::Constructors => [24, 20, 18, 10, 7, 4, 9, 7, 1, 1],
             Profile::Metadata => [24, 14, 34, 2, 2, 2, 2, 6, 10, 4],
             }
         };
